@@ -1,9 +1,12 @@
 use crate::core::PropertyDef;
 
+pub mod c02;
 pub mod c05;
+pub mod c08;
+pub mod c08_lang;
 
 pub fn all() -> Vec<PropertyDef> {
-    vec![c05::def()]
+    vec![c02::def(), c05::def(), c08::def()]
 }
 
 pub fn lookup(id: &str) -> Option<PropertyDef> {
